@@ -502,6 +502,11 @@ func (C04) Run(t *testing.T, scAny any) *sim.Outcome {
 					}
 				}
 			}
+			for q := range pre.Tombs { // removing a whiteout node can take a valued parent along
+				for _, a := range ancestors(q) {
+					unstable[a] = true
+				}
+			}
 			if len(unstable) > 0 {
 				out.Count("probe_backing_file_removal_depends_on_map_order", 1)
 			}
@@ -516,6 +521,14 @@ func (C04) Run(t *testing.T, scAny any) *sim.Outcome {
 		checkSquashed(out, sc, sb, views[len(views)-1], strict[len(strict)-1], ctxs)
 	}
 	dedupeByKey(out)
+	if os.Getenv("VERIF_DEBUG") == "keys" {
+		var ks []string
+		for _, v := range out.Violations {
+			ks = append(ks, v.Key)
+		}
+		b, _ := json.Marshal(loaded)
+		fmt.Printf("DEBUGKEYS %s %v %s\n", sim.FP(loaded), ks, b)
+	}
 	return out
 }
 
